@@ -616,8 +616,8 @@ impl BuiltInFunction {
                     unreachable!()
                 };
 
-                // a `0x` prefix introduces a hexadecimal numeral, as it does in source text
-                let parsed = if s.starts_with("0x") {
+                // a `0x` prefix introduces a hexadecimal numeral, as it does in source text: digits follow it, not a sign
+                let parsed = if s.starts_with("0x") && !s.starts_with("0x+") && !s.starts_with("0x-") {
                     i32::from_str_radix(s.get(2..).unwrap_or_default(), 16)
                 } else {
                     s.parse::<i32>()
@@ -637,8 +637,8 @@ impl BuiltInFunction {
                     unreachable!()
                 };
 
-                // a `0x` prefix introduces a hexadecimal numeral, as it does in source text
-                let parsed = if s.starts_with("0x") {
+                // a `0x` prefix introduces a hexadecimal numeral, as it does in source text: digits follow it, not a sign
+                let parsed = if s.starts_with("0x") && !s.starts_with("0x+") && !s.starts_with("0x-") {
                     i128::from_str_radix(s.get(2..).unwrap_or_default(), 16)
                 } else {
                     s.parse::<i128>()
@@ -662,7 +662,12 @@ impl BuiltInFunction {
                     unreachable!()
                 };
 
-                let s = if s.starts_with("0x") {
+                // `0x` is the prefix of a hexadecimal numeral only: in any other radix `0` and `x` are digits (or no digits at all)
+                let s = if *radix == 16
+                    && s.starts_with("0x")
+                    && !s.starts_with("0x+")
+                    && !s.starts_with("0x-")
+                {
                     s.get(2..).unwrap_or_default()
                 } else {
                     s
@@ -695,7 +700,12 @@ impl BuiltInFunction {
                     unreachable!()
                 };
 
-                let s = if s.starts_with("0x") {
+                // `0x` is the prefix of a hexadecimal numeral only: in any other radix `0` and `x` are digits (or no digits at all)
+                let s = if *radix == 16
+                    && s.starts_with("0x")
+                    && !s.starts_with("0x+")
+                    && !s.starts_with("0x-")
+                {
                     s.get(2..).unwrap_or_default()
                 } else {
                     s
@@ -752,7 +762,7 @@ impl BuiltInFunction {
                     unreachable!()
                 };
 
-                let (s, radix) = if s.starts_with("0b") {
+                let (s, radix) = if s.starts_with("0b") && !s.starts_with("0b+") {
                     (s.get(2..).unwrap_or_default(), 2)
                 } else {
                     (s.as_str(), 10)
